@@ -137,6 +137,10 @@ def run(tier, seed, rng):
         cfg['factor_update_steps'] = rng.choice([1, 1, 2]); cfg['inv_update_steps'] = rng.choice([1, 2, 3])
         W = cfg['W']
         nst = rng.randint(1, 4)
+        if rng.random() < 0.3:        # intervals that are not multiples of each other, factors updated in step(): inverse-only steps exist
+            cfg['factor_update_steps'], cfg['inv_update_steps'] = rng.choice([(2, 3), (3, 2)])
+            cfg['update_factors_in_hook'] = False
+            nst = rng.randint(4, 5)
         hist = [['train', cfg['accumulation_steps']] for _ in range(nst)]
         w, calls = run_case(cfg, hist, seed + kk)
         case = {'cfg': cfg, 'history': hist, 'seed': seed + kk}
@@ -184,6 +188,12 @@ def run(tier, seed, rng):
                 want_ar = sum(n_ for kind, g, n_, root in comm if kind == 1)
                 got_ar = sum(e[3] for e in mine if e[1] == 'all_reduce')
                 got_ar_groups = {tuple(e[2]) for e in mine if e[1] == 'all_reduce'}
+                # property-level oracle: every factor is allreduced on the world exactly once per factor-update step, never otherwise
+                fn = (lambda n_: n_ * (n_ + 1) // 2) if cfg['symmetry_aware'] else (lambda n_: n_ * n_)
+                orc_ar = sum(fn(d[0]) + fn(d[1]) for d in o0['dims']) if (fstep and W > 1) else 0
+                if got_ar != orc_ar:
+                    probs.append(f'step {si} rank {r}: {got_ar} factor elements allreduced, the property prescribes {orc_ar} '
+                                 f'({"a" if fstep else "not a"} factor-update step)')
                 if got_ar != want_ar or (got_ar_groups - {tuple(range(W))}):
                     diffs.append(f'step {si} rank {r}: allreduce elements {got_ar} on {got_ar_groups} vs model {want_ar} on the world')
                 want_b = sorted((grp[g], n_, root) for kind, g, n_, root in comm if kind == 2)
